@@ -71,6 +71,7 @@ struct MemEnv {
   uint64_t fill_seed = 1;   // dirty-heap pattern
   bool realloc_move = true; // always relocate on realloc
   bool hugetlb_ok = false;  // MAP_HUGETLB attempts succeed
+  size_t map_limit = 0;     // the simulated machine refuses single mappings of this many bytes and more (0: only >= 1 TiB)
 };
 struct MemLayer {
   static MemLayer &get();
@@ -107,6 +108,7 @@ struct EntropyDev {
   uint64_t seed = 0;
   unsigned long counter[MAX_TASKS] = {0};
   std::vector<EntropyDraw> draws[MAX_TASKS];  // draws of the current op
+  struct Last { const void *buf; size_t n; unsigned char bytes[256]; } last[MAX_TASKS];  // the op's latest draw, as plain data (read without any call right after the library returns)
   void begin_run(uint64_t s);
   void begin_op(int task);
   void fill(int task, void *buf, size_t n);
